@@ -249,8 +249,8 @@ func (x *c11Exec) run(events []string) (viols []string, key string, enabled map[
 		})
 	}
 	unpark := func() {
-		x.pauseReq.Store(false)
 		x.resMu.Lock()
+		x.pauseReq.Store(false)
 		ch := x.resume
 		x.resume = make(chan struct{})
 		x.resMu.Unlock()
@@ -258,7 +258,13 @@ func (x *c11Exec) run(events []string) (viols []string, key string, enabled map[
 	}
 	w.SetExtra(func(p vsql.Point) error {
 		if x.pauseReq.Load() && (p.Kind == vsql.Begin || p.Kind == vsql.Stmt && !p.InTx) && c11Goid() != harnessG {
+			// (decided under the lock unpark holds: a goroutine must never wait on a channel
+			// that was created after the last unpark of the execution)
 			x.resMu.Lock()
+			if !x.pauseReq.Load() {
+				x.resMu.Unlock()
+				return nil
+			}
 			ch := x.resume
 			x.resMu.Unlock()
 			x.parked.Add(1)
